@@ -106,9 +106,10 @@ def rules(rep, m):
                   "function is called exactly once per loop iteration with that pointer", floor=1)
     wx = FuncCtx(m, wk)
     loops = [x for x in walk(wk.body) if x["kind"] in ("WhileStmt", "ForStmt")]
-    if len(loops) != 1:
-        raise AnalysisBroken("worker_thread_func: expected one dispatch loop")
-    body = kids(loops[0])[-1]
+    if not loops:
+        raise AnalysisBroken("worker_thread_func: no dispatch loop")
+    outer = loops[0]
+    body = kids(outer)[-1]
     idx_decl = None
     for x in walk(body):
         if x["kind"] == "VarDecl" and kids(x):
@@ -130,40 +131,90 @@ def rules(rep, m):
         r2.fail()
     else:
         r2.ok()
-        iname = idx_decl["name"]
-        ic = wx.canon(kids(idx_decl)[0])          # canonical value of the index (the fetch-add expression)
+        fname = idx_decl["name"]
+        ic = wx.canon(kids(idx_decl)[0])          # canonical value of the fetched index
         ini = strip(kids(idx_decl)[0], casts=True)
-        args = [render(a) for a in kids(ini)]
+        args = [wx.canon(a) for a in kids(ini)]
+        step = args[2] if len(args) == 3 else "?"
         rep.sample({"rule": "R-C19-2", "fetch_add": args})
-        if not (len(args) == 3 and args[0] == "&cmg_next_trial_idx" and args[2] == "1"):
-            rep.finding(r2, wk.name, "dispenser:step", "the dispenser is not advanced by exactly one per trial (%s)" % args,
+        if not (len(args) == 3 and args[0] == "&cmg_next_trial_idx"):
+            rep.finding(r2, wk.name, "dispenser:counter", "the dispenser does not advance the shared trial counter (%s)" % args,
                         where=m.rel(loc(idx_decl)))
             r2.fail()
         else:
             r2.ok()
+        names_f = (fname, ic)
         stmts = kids(body)
-        di = next(i for i, s in enumerate(stmts) if any(y is idx_decl for y in walk(s)))
+        di = next(i for i, s_ in enumerate(stmts) if any(y is idx_decl for y in walk(s_)))
+        # exit test: the worker leaves only when the *first* fetched index is already past the end
         bi = None
-        for i, s in enumerate(stmts[di + 1:], di + 1):
-            if s["kind"] == "IfStmt" and wx.canon(kids(s)[0]) in ("(%s >= cmg_total_trials)" % iname,
-                                                                 "(%s >= cmg_total_trials)" % ic) and \
-                    any(y["kind"] in ("BreakStmt", "ReturnStmt") for y in walk(kids(s)[1])):
-                bi = i
-                break
-        uses = [i for i, s in enumerate(stmts[di + 1:], di + 1) if s["kind"] != "IfStmt" or i != bi
-                for y in walk(s) if y["kind"] == "DeclRefExpr" and y.get("ref", {}).get("id") == idx_decl["id"]]
-        if bi is None or (uses and min(uses) < bi):
-            rep.finding(r2, wk.name, "dispenser:bound", "the index is used before (or without) the test 'index >= total'",
-                        where=m.rel(loc(idx_decl)))
+        exit_conds = []
+        for i, s_ in enumerate(stmts[di + 1:], di + 1):
+            if s_["kind"] == "IfStmt" and any(y["kind"] in ("BreakStmt", "ReturnStmt") for y in walk(kids(s_)[1])):
+                exit_conds.append((i, wx.canon(kids(s_)[0])))
+        good_exit = [i for i, c in exit_conds if c in tuple("(%s >= cmg_total_trials)" % n_ for n_ in names_f)]
+        r2.instance("exit test(s): %s" % [c for i, c in exit_conds])
+        if not good_exit or len(exit_conds) != len(good_exit):
+            rep.finding(r2, wk.name, "dispenser:bound", "the worker leaves the dispatch loop on %s; the only sound exit is "
+                        "'fetched index >= total' (any other test drops or repeats trials near the end)"
+                        % [c for i, c in exit_conds], where=m.rel(loc(idx_decl)))
             r2.fail()
         else:
             r2.ok()
+            bi = good_exit[0]
+        # which indices are executed for one fetch?
+        inner = [x for x in walk(body) if x["kind"] == "ForStmt"]
+        if step == "1" and not inner:
+            run_idx = names_f
+            okrange = True
+        else:
+            okrange = False
+            run_idx = ()
+            if len(inner) == 1:
+                ich = kids(inner[0])
+                iv = None
+                for x in walk(ich[0]):
+                    if x["kind"] == "VarDecl" and kids(x):
+                        iv = (x["name"], wx.canon(kids(x)[0]))
+                cond = wx.canon(ich[2])
+                inc = strip(ich[3], casts=True)
+                if iv and iv[1] in names_f and inc["kind"] == "UnaryOperator" and inc.get("opcode") == "++":
+                    run_idx = (iv[0],)
+                    lim = "(%s + %s)" % (ic, step)
+                    limn = "(%s + %s)" % (fname, step)
+                    pats = []
+                    for L in (lim, limn):
+                        pats += ["((%s < %s) && (%s < cmg_total_trials))" % (iv[0], L, iv[0]),
+                                 "((%s < cmg_total_trials) && (%s < %s))" % (iv[0], iv[0], L),
+                                 "(%s < ((%s < cmg_total_trials) ? %s : cmg_total_trials))" % (iv[0], L, L),
+                                 "(%s < ((cmg_total_trials < %s) ? cmg_total_trials : %s))" % (iv[0], L, L)]
+                    okrange = cond in pats
+                    r2.instance("batch of %s: inner loop %s from %s while %s" % (step, iv[0], iv[1], cond))
+                    if not okrange:
+                        rep.finding(r2, wk.name, "dispenser:batch-range", "a batch of %s indices is fetched but the inner loop "
+                                    "runs while %s: it must cover [first, min(first + batch, total)) so that a final partial "
+                                    "batch is neither dropped nor overrun" % (step, cond), where=m.rel(loc(inner[0])))
+                        r2.fail()
+            if not run_idx:
+                rep.finding(r2, wk.name, "dispenser:batch-shape", "the counter is advanced by %s per fetch but the indices "
+                            "[first, first + %s) are not each executed by one simple inner loop" % (step, step),
+                            where=m.rel(loc(idx_decl)))
+                r2.fail()
+        if okrange:
+            r2.ok()
+        # uses of the fetched index before the exit test
+        if bi is not None:
+            uses = [i for i, s_ in enumerate(stmts[di + 1:], di + 1) if i != bi
+                    for y in walk(s_) if y["kind"] == "DeclRefExpr" and y.get("ref", {}).get("id") == idx_decl["id"]]
+            if uses and min(uses) < bi:
+                rep.finding(r2, wk.name, "dispenser:bound", "the fetched index is used before the test 'index >= total'",
+                            where=m.rel(loc(idx_decl)))
+                r2.fail()
         tp = None
         for x in walk(body):
             if x["kind"] == "VarDecl" and x is not idx_decl and kids(x):
                 c = wx.canon(kids(x)[0])
-                if c in ("(cmg_experiment_arr + (%s * cmg_trial_struct_sz))" % iname,
-                         "(cmg_experiment_arr + (%s * cmg_trial_struct_sz))" % ic):
+                if c in tuple("(cmg_experiment_arr + (%s * cmg_trial_struct_sz))" % n_ for n_ in run_idx):
                     tp = x
         if tp is None:
             rep.finding(r2, wk.name, "dispenser:pointer", "the trial pointer is not base + index * element size",
@@ -172,12 +223,12 @@ def rules(rep, m):
         else:
             r2.ok()
             ind = [c for c in walk(body) if c["kind"] == "CallExpr" and callee_ref(c) is None]
-            # one call per path: the if/else alternatives each contain exactly one
-            per_path_ok = True
+            per_path_ok = bool(ind)
             for c in ind:
                 if render(kids(c)[1]) != tp["name"]:
                     per_path_ok = False
-            top_if = [s for s in stmts if s["kind"] == "IfStmt" and any(c in list(walk(s)) for c in ind)]
+            scope = kids(inner[0])[4] if inner and step != "1" else body
+            top_if = [s_ for s_ in kids(scope) if s_["kind"] == "IfStmt" and any(c in list(walk(s_)) for c in ind)]
             if top_if:
                 for br in kids(top_if[0])[1:]:
                     if sum(1 for c in ind if any(y is c for y in walk(br))) != 1:
@@ -186,7 +237,7 @@ def rules(rep, m):
                     per_path_ok = False
             elif len(ind) != 1:
                 per_path_ok = False
-            r2.instance("trial function called once per iteration with the trial pointer: %s" % per_path_ok)
+            r2.instance("trial function called once per index with that trial's own element: %s" % per_path_ok)
             if not per_path_ok:
                 rep.finding(r2, wk.name, "dispenser:call", "the trial function is not called exactly once per dispensed index "
                             "with that trial's own element", where=m.rel(wk.where))
